@@ -189,3 +189,10 @@ Theorem C08_source_header_sets :
   (forall stored fresh, src_update_stored_headers stored fresh = update_stored_headers stored fresh).
 Proof. split; [exact tie_hop_by_hop_headers|split; [exact tie_remove_hop_by_hop|exact tie_update_stored_headers]]. Qed.
 Print Assumptions C08_source_header_sets.
+
+(* a response without a usable Date is dated by its receipt: FixDateHeader of internal/clock.go on this run *)
+From HC.Generated Require Import SrcHeaderProgs.
+From HC.Proofs Require Import TieHeaderProgs.
+Theorem C08_source_fix_date_header : forall h b, src_fix_date_header h b = fix_date_header h b.
+Proof. exact tie_fix_date_header. Qed.
+Print Assumptions C08_source_fix_date_header.
